@@ -70,34 +70,89 @@ package snapshot
 //@   ensures table: iff(r0 == nil, (d.transform == "" || hack) && !(nativeSchema && d.transform != "") && (formatVersion >= 3 ==> iff(dup, hack)))
 
 //@ func (d *DBI) SetName
-//@   trusted
 //@   modifies d.name, d.dirty
+//@   ensures name_set: len(d.name) == len(s) && d.dirty
 //@ func (d *DBI) SetFlags
-//@   trusted
 //@   modifies d.flags, d.dirty
+//@   ensures flags_set: d.flags == v && d.dirty
 //@ func (d *DBI) SetTransform
-//@   trusted
 //@   modifies d.transform, d.dirty
+//@   ensures transform_set: len(d.transform) == len(s) && d.dirty
 //@ func (d *DBI) Append
 //@   trusted
-//@   modifies *d, bytes(d.data)
+//@   modifies d.data, d.dirty, d.flushed, d.NumWrittenEntries, bytes(d.data[:cap(d.data)]), ghost_wKey, ghost_wVal, ghost_wFlags, ghost_wTS, ghost_wEntry, ghost_start
 //@   nopanic
+//@   requires names_fit: d.dirty ==> len(d.name) <= 511 && len(d.transform) <= 64
+//@   assumes ghosts_start_at_zero: ghost_wKey == 0 && ghost_wVal == 0 && ghost_wFlags == 0 && ghost_wTS == 0 && ghost_wEntry == 0
+//@   let keySize = ite(len(kv.Key) > 0, 1 + varintSize(uint64(len(kv.Key))) + len(kv.Key), 0)
+//@   let valSize = ite(len(kv.Value) > 0, 1 + varintSize(uint64(len(kv.Value))) + len(kv.Value), 0)
+//@   let flagsSize = ite(kv.Flags > 0, 1 + varintSize(uint64(kv.Flags)), 0)
+//@   let tsSize = ite(kv.TimestampNano > 0, 9, 0)
+//@   let kvSize = keySize + valSize + flagsSize + tsSize
+//@   let hdrSize = 1 + varintSize(uint64(kvSize))
 //@   at_call csproto.EncodeTag#0 assert entries_field: arg1 == 2 && arg2 == 2
 //@   at_call csproto.EncodeTag#1 assert key_field: arg1 == 1 && arg2 == 2
 //@   at_call csproto.EncodeTag#2 assert value_field: arg1 == 2 && arg2 == 2
 //@   at_call csproto.EncodeTag#3 assert flags_field: arg1 == 4 && arg2 == 0
 //@   at_call csproto.EncodeTag#4 assert timestamp_field: arg1 == 3 && arg2 == 1
+//@   at_call csproto.EncodeTag#0 assert size_computed!: msgSize == kvSize && kvSize > 0 && outerSize == hdrSize + kvSize
+//@   at_call csproto.EncodeTag#0 assert room_reserved_at_end!: len(d.data) == offset + hdrSize + kvSize && offset >= 0
+//@   after_call csproto.EncodeTag#0 ghost start := offset
+//@   at_call csproto.EncodeVarint#0 assert entry_length!: arg1 == uint64(kvSize) && offset == ghost_start + 1
+//@   at_call csproto.EncodeTag#1 assert key_position!: offset == ghost_start + hdrSize
+//@   at_call csproto.EncodeVarint#1 assert key_length: arg1 == uint64(len(kv.Key))
+//@   at_call copy#1 assert key_bytes!: sameSlice(arg1, kv.Key) && len(arg0) >= len(kv.Key) && offset == ghost_start + hdrSize + 1 + varintSize(uint64(len(kv.Key)))
+//@   at_call csproto.EncodeTag#2 assert value_position!: offset == ghost_start + hdrSize + keySize
+//@   at_call csproto.EncodeVarint#2 assert value_length: arg1 == uint64(len(kv.Value))
+//@   at_call copy#2 assert value_bytes!: sameSlice(arg1, kv.Value) && len(arg0) >= len(kv.Value) && offset == ghost_start + hdrSize + keySize + 1 + varintSize(uint64(len(kv.Value)))
+//@   at_call csproto.EncodeTag#3 assert flags_position!: offset == ghost_start + hdrSize + keySize + valSize
+//@   at_call csproto.EncodeVarint#3 assert flags_value: arg1 == uint64(kv.Flags)
+//@   at_call csproto.EncodeTag#4 assert timestamp_position!: offset == ghost_start + hdrSize + keySize + valSize + flagsSize
+//@   at_call binary.(littleEndian).PutUint64#0 assert timestamp_value: arg2 == kv.TimestampNano
+//@   after_call csproto.EncodeTag#0 ghost wEntry := 1
+//@   after_call csproto.EncodeTag#1 ghost wKey := 1
+//@   after_call csproto.EncodeTag#2 ghost wVal := 1
+//@   after_call csproto.EncodeTag#3 ghost wFlags := 1
+//@   after_call csproto.EncodeTag#4 ghost wTS := 1
+//@   exit size_matches_written: offset == len(d.data)
+//@   ensures entry_size: !old(d.dirty) ==> len(d.data) == old(len(d.data)) + ite(kvSize > 0, 1 + varintSize(uint64(kvSize)) + kvSize, 0)
+//@   ensures entry_written_iff_nonempty: iff(ghost_wEntry == 1, kvSize > 0)
+//@   ensures key_written_iff_nonempty: iff(ghost_wKey == 1, len(kv.Key) > 0)
+//@   ensures value_written_iff_nonempty: iff(ghost_wVal == 1, len(kv.Value) > 0)
+//@   ensures flags_written_iff_nonzero: iff(ghost_wFlags == 1, kv.Flags != 0)
+//@   ensures timestamp_written_iff_nonzero: iff(ghost_wTS == 1, kv.TimestampNano != 0)
 //@   ensures grows: len(d.data) >= old(len(d.data))
-//@   ensures empty_kv_writes_nothing: len(kv.Key) == 0 && len(kv.Value) == 0 && kv.Flags == 0 && kv.TimestampNano == 0 ==> len(d.data) == old(len(d.data))
 //@ func (d *DBI) flushFields
-//@   trusted
-//@   modifies *d, bytes(d.data)
-//@   ensures flushed: !d.dirty
-//@   ensures grows: len(d.data) >= old(len(d.data))
+//@   inline
+
+// doFlushFields writes the top-level DBI fields (name, flags, transform) with
+// the schema's field numbers into a 1000-byte scratch buffer and appends them:
+// the names must fit (LMDB limits DBI names to 511 bytes, transforms are
+// constants of this package).
+//@ func (d *DBI) doFlushFields
+//@   requires names_fit: len(d.name) <= 511 && len(d.transform) <= 64
+//@   modifies d.data, bytes(d.data[:cap(d.data)])
+//@   nopanic
+//@   let nameSize = ite(len(d.name) > 0, 1 + varintSize(uint64(len(d.name))) + len(d.name), 0)
+//@   let flagsSize = ite(d.flags > 0, 1 + varintSize(d.flags), 0)
+//@   let transformSize = ite(len(d.transform) > 0, 1 + varintSize(uint64(len(d.transform))) + len(d.transform), 0)
+//@   at_call csproto.EncodeTag#0 assert name_field: arg1 == 1 && arg2 == 2
+//@   at_call csproto.EncodeTag#1 assert flags_field: arg1 == 3 && arg2 == 0
+//@   at_call csproto.EncodeTag#2 assert transform_field: arg1 == 4 && arg2 == 2
+//@   at_call csproto.EncodeVarint#0 assert name_length: arg1 == uint64(len(d.name))
+//@   at_call csproto.EncodeVarint#1 assert flags_value: arg1 == d.flags
+//@   at_call csproto.EncodeVarint#2 assert transform_length: arg1 == uint64(len(d.transform))
+//@   at_call copy#0 assert name_bytes: len(arg0) >= len(d.name)
+//@   at_call copy#1 assert transform_bytes: len(arg0) >= len(d.transform)
+//@   at_call csproto.EncodeTag#1 assert flags_position!: offset == nameSize
+//@   at_call csproto.EncodeTag#2 assert transform_position!: offset == nameSize + flagsSize
+//@   exit all_written: offset == nameSize + flagsSize + transformSize
+//@   ensures appended_size: len(d.data) == old(len(d.data)) + nameSize + flagsSize + transformSize
+//@   ensures same_or_fresh_array: sameArray(d.data, old(d.data)) || fresh(d.data)
 //@ func NewDBISize
-//@   trusted
-//@   pure
-//@   ensures r0 != nil
+//@   assumes size_hint_nonneg: size >= 0
+//@   ensures r0 != nil && freshObj(r0)
+//@   ensures empty: len(r0.name) == 0 && len(r0.transform) == 0 && r0.flags == 0 && len(r0.data) == 0 && !r0.dirty && !r0.flushed
 //@ func (d *DBI) Size
 //@   trusted
 //@   modifies *d
